@@ -131,7 +131,9 @@ func stored(s *e2e.Store, d *pdag) []int {
 	return out
 }
 
-const reqDeadline = 12 * time.Second
+// every wait on a request is bounded by this (a request of these sizes takes well under 2 s on a loaded machine);
+// a wait that expires is an observation ("hung") and the case is run once more before it is believed
+const reqDeadline = 8 * time.Second
 
 func runChild(c pCase, resultPath string) error {
 	out := &childResult{Phase: "start", CbReq: []uint64{}, CbResp: []uint64{}, RespStatus: map[string]int{}}
@@ -244,7 +246,7 @@ func runChild(c pCase, resultPath string) error {
 			gateOnce.Do(func() { close(atGate) })
 			select {
 			case <-release:
-			case <-time.After(3 * reqDeadline):
+			case <-time.After(4 * reqDeadline):
 			}
 		}
 	})
@@ -253,7 +255,7 @@ func runChild(c pCase, resultPath string) error {
 	r2done := make(chan struct{})
 	go func() {
 		p2, e2 := req.Request(w.Ctx, w.Nodes[1].ID(), d2.root(), sel)
-		r2res = collect(w.Ctx, p2, e2, 4*reqDeadline)
+		r2res = collect(w.Ctx, p2, e2, 6*reqDeadline) // bounded below by the wait after the release
 		close(r2done)
 	}()
 	select {
@@ -275,8 +277,8 @@ func runChild(c pCase, resultPath string) error {
 	close(release)
 	select {
 	case <-r2done:
-	case <-time.After(5 * reqDeadline):
-		r2res = &reqResult{Hung: true}
+	case <-time.After(reqDeadline):
+		r2res = &reqResult{Hung: true} // r2 did not finish after r1 had ended and the gate was opened
 	}
 	out.R2 = r2res
 	out.R2.Stored = stored(w.Nodes[0].Store, d2)
@@ -287,7 +289,7 @@ func runChild(c pCase, resultPath string) error {
 	out.R3.Stored = stored(w.Nodes[0].Store, d3)
 
 	// the responder reports r1's terminal status asynchronously (after the message was sent)
-	if c.Side == "responder" && c.Kind != "none" {
+	if c.Side == "responder" && c.Kind != "none" && !out.R1.Hung && !out.R2.Hung && !out.R3.Hung {
 		deadline := time.Now().Add(reqDeadline)
 		for time.Now().Before(deadline) {
 			stMu.Lock()
